@@ -506,18 +506,18 @@ func init() {
 				})
 			})
 			w.Phase("core-programs", func() {
-				Seqs(c07Core, w.Pick(1, 2), func(s []string) { w.Eval("ids", strings.Join(s, "\n")) })
+				Seqs(c07Core, 2, func(s []string) { w.Eval("ids", strings.Join(s, "\n")) })
 			})
 		},
 	})
 
 	eng.Register(&eng.Check{
 		ID: "C09", Level: "exploration",
-		Rule: "every sequence of ≤2 (quick) / ≤3 (thorough) statements over the 43-statement structure fragment (quoted underscore names, class / sql_table with fields, sequence diagrams with actors, spans, notes and groups, grids, boards of each kind, underscores, connections across containers, nulls, globs) and over the 260-statement full-language core of C07 (≤2), compiled with an in-memory file set; compilable programs only; oracle: per board — objects listed once, parent chain reaches the root, parent lists the child exactly once in ChildrenArray and under lower-case ID in Children, class/sql_table fields are not objects, every connection joins two listed objects of its own board; order clause on the root board of glob-/import-/substitution-/null-/class-free programs: Objects and Edges sorted by byte offset of their first reference",
+		Rule: "every sequence of ≤3 statements (both tiers) over the 43-statement structure fragment (quoted underscore names, class / sql_table with fields, sequence diagrams with actors, spans, notes and groups, grids, boards of each kind, underscores, connections across containers, nulls, globs) and over the 260-statement full-language core of C07 (≤2), compiled with an in-memory file set; compilable programs only; oracle: per board — objects listed once, parent chain reaches the root, parent lists the child exactly once in ChildrenArray and under lower-case ID in Children, class/sql_table fields are not objects, every connection joins two listed objects of its own board; order clause on the root board of glob-/import-/substitution-/null-/class-free programs: Objects and Edges sorted by byte offset of their first reference",
 		Assumptions: []string{"the order clause is checked only where 'first appearance' is defined by the source text alone: root board, programs without globs, imports, substitutions, null deletions and classes"},
 		Oracles: map[string]eng.Oracle{"tree": c09Oracle},
 		Run: func(w *eng.W) {
-			for k := 1; k <= w.Pick(2, 3); k++ {
+			for k := 1; k <= 3; k++ {
 				k := k
 				w.Phase(fmt.Sprintf("structure-stmts<=%d", k), func() {
 					Seqs(c09Struct, k, func(s []string) { w.Eval("tree", strings.Join(s, "\n")) })
